@@ -6,7 +6,7 @@
      hcase : translation validation of a whole generated control stream (verdict_hist)
    Correspondence tags < 10, oracle tags 11..99, guard facts >= 200, inconclusive >= 1000. *)
 From Coq Require Import QArith List Bool PArith Arith.
-From PV Require Import Base.PyData Base.Expr Base.Interp Base.Stmts C02.Model C02.CondPrint C02.Spec C02.Remap C02.IndexDiff.
+From PV Require Import Base.PyData Base.Expr Base.Interp Base.Stmts C02.Model C02.CondPrint C02.Spec C02.Remap C02.IndexDiff C02.Read.
 Import ListNotations.
 Local Open Scope nat_scope.
 
@@ -87,12 +87,16 @@ Fixpoint nmstmts_agree (need : nat) (envs : list env) (a b : list nmstmt) : nat 
 Record pcase := mkP {
   p_defined : list id;                    (* defined_symbols *)
   p_sym : id; p_expr : expr;              (* the Assignment *)
-  p_impl : option (list nmstmt);          (* the printed text, read by the reference parser; None = unreadable *)
+  p_toks : option (list tok);             (* tokens of the printed text; None = the printer raised / not tokenizable *)
   p_envs : list (list (id * Q))
 }.
 
 Definition value_after (r : env) (l : list nmstmt) (x : id) : option Q :=
   match nm_exec std_fi r l with Some r' => r' x | None => None end.
+
+(* the printed text is read by the Coq reader C02.Read.read *)
+Definition p_impl (c : pcase) : option (list nmstmt) :=
+  match p_toks c with Some ts => read ts | None => None end.
 
 Definition verdict_print (c : pcase) : list nat :=
   let D := p_defined c in let x := p_sym c in let e := p_expr c in
@@ -127,9 +131,14 @@ Definition verdict_print (c : pcase) : list nat :=
 (* ================= stream 3: boolean conditions ============================================== *)
 Record ccase := mkC {
   c_cond : scond;
-  c_impl : option cond;                    (* printed text read by the reference parser *)
+  c_toks : option (list tok);              (* tokens of the printed text *)
   c_envs : list (list (id * Q))
 }.
+
+Definition read_cond (ts : list tok) : option cond :=
+  match p_cor (6 * S (length ts)) ts with Ok c [] => Some c | _ => None end.
+Definition c_impl (c : ccase) : option cond :=
+  match c_toks c with Some ts => read_cond ts | None => None end.
 
 Definition verdict_cond (c : ccase) : list nat :=
   let envs := map env_of (c_envs c) in
@@ -334,6 +343,17 @@ Definition verdict_hist (c : hcase) : list nat :=
   (if des_missing c then [30] else []) ++
   (* 41: parameters and random variables of the re-read model *)
   (if h_rr_ok c then tag (list_eqb par_eqb (h_par c) (h_rr_par c) && h_rvs_ok c) 41 else []).
+
+(* the generated code arrives as token lists and is read here; 42 = not readable abbreviated code *)
+Record hcase_t := mkHt {
+  t_pk : list tok; t_des : list tok; t_err : list tok;
+  t_mk : list nmstmt -> list nmstmt -> list nmstmt -> list id -> hcase    (* pk, des, err, zero-initialised variables *)
+}.
+Definition verdict_hist_t (c : hcase_t) : list nat :=
+  match read (t_pk c), read (t_des c), read (t_err c) with
+  | Some pk, Some des, Some err => verdict_hist (t_mk c pk des err (nm_assigned (pk ++ des ++ err)))
+  | _, _, _ => [42]
+  end.
 
 (* ================= stream 5: compartment renumbering ======================================== *)
 Record rcase := mkR {
